@@ -241,14 +241,21 @@ def replay(start, hist, res=None, sub=None):
                             {'history': hist, 'start': list(start),
                              'source': SOURCES[model[0]]}, sub)
         # defaults and source intact (after every kind of operation)
-        if t.globals != DEFAULTS[model[1]]:
+        have = getattr(t, 'globals', '(no defaults at all)')
+        if have != DEFAULTS[model[1]]:
             res.violate('defaults-intact', 'defaults-changed:%s' % tag,
                         {'history': hist, 'start': list(start),
-                         'globals': repr(t.globals)}, sub)
-        if t.read() != SOURCES[model[0]]:
+                         'globals': repr(have)}, sub)
+        try:
+            raw = t.read()
+        except CaseTimeout:
+            raise
+        except Exception as e:
+            raw = 'read() raised %r' % (e,)
+        if raw != SOURCES[model[0]]:
             res.violate('source-intact', 'source-changed:%s' % tag,
                         {'history': hist, 'start': list(start),
-                         'raw': t.read()}, sub)
+                         'raw': raw}, sub)
         st = t.__getstate__()
         if any(k.startswith('_v_') for k in st):
             res.violate('pickle-omits-compiled', 'getstate-has-v:%s' % tag,
